@@ -230,3 +230,41 @@ func (w *World) Tr(s string) {
 		w.Step(s)
 	}
 }
+
+// ReserveToken returns a fresh token id whose contract does not exist yet: metadata calls for it fail until
+// CreateToken is called.
+func (w *World) ReserveToken() string {
+	id := randHex(w.Rng, 32)
+	tokMu.Lock()
+	TokenByAddress[addrOf(id)] = id
+	tokMu.Unlock()
+	return id
+}
+
+// CreateToken deploys (or re-deploys with new metadata) the token contract behind id. Call inside Mutate.
+func (w *World) CreateToken(s *Sim, id, symbol, name string, decimals int) {
+	s.SetToken(id, &Token{Symbol: symbol, Name: name, Decimals: decimals, Mode: "ok"})
+}
+
+// AttestFor builds a token-bridge attestation of token id carrying the given metadata.
+func (w *World) AttestFor(id, symbol, name string, decimals int, cl uint8) *Intent {
+	in := &Intent{Sender: w.TB, Target: 0, Seq: w.NextSeq, Nonce: w.Rng.Uint32(), CL: cl}
+	w.NextSeq++
+	idb, _ := hex.DecodeString(id)
+	p := []byte{2}
+	p = append(p, idb...)
+	p = append(p, 0, 255, byte(decimals))
+	p = append(p, pad32(symbol)...)
+	p = append(p, pad32(name)...)
+	in.Payload = p
+	return in
+}
+
+// NewBlockAt adds a main-chain block on top of the current height with the given timestamp (ms).
+func (w *World) NewBlockAt(s *Sim, tsMs int64) *Block {
+	w.nBlock++
+	b := s.AddBlock(randHex(w.Rng, 32), s.Height+1, tsMs, true)
+	s.SetHeight(s.Height + 1)
+	w.Blocks = append(w.Blocks, b)
+	return b
+}
